@@ -308,7 +308,7 @@ func (g *PageGen) figure() string {
 }
 
 func (g *PageGen) video() string {
-	return `<video src="` + g.mediaURL("mp4") + `" poster="` + g.mediaURL("jpg") + `"` + g.deco() + `><source src="` + g.mediaURL("webm") + `"><track src="` + g.mediaURL("vtt") + `">` + g.words(2) + `</video>` + "\n"
+	return `<video src="` + g.mediaURL("mp4") + `" poster="` + g.mediaURL("jpg") + `"` + g.deco() + `><source src="` + g.mediaURL("webm") + `" srcset="` + g.mediaURL("webm") + ` 1x, ` + g.mediaURL("webm") + ` 2x"><track src="` + g.mediaURL("vtt") + `">` + g.words(2) + `</video>` + "\n"
 }
 
 func (g *PageGen) embed() string {
